@@ -1,11 +1,14 @@
-(* Executable model of the notifier coordinator's incident machine.
+(* Executable model of the notifier coordinator's incident machine, group-list refresh included.
    Anchors: core/internal/notifier/coordinator.go (tree after commit aea5b6c, the fix for finding F3)
-     consumerGroup {ID, Start, LastNotify}          :58-63
+     consumerGroup {ID, Start, LastNotify}          :58-63     clusterGroups {Groups} :65-68     nc.clusters :92
      responseLoop (NOTFOUND is dropped)             :393-413
      checkAndSendResponseToModules                  :415-466
+       no record for the group: return :424-428  ("The group must have just been deleted")
        open incident   :430-441  Start zero and Status > OK: fresh ID, Start = now, remembered notify times forgotten
        per module      :443-459  allowlist / denylist / AcceptConsumerGroup, then notifyModule (called synchronously)
        close incident  :461-465  Status = OK: ID and Start cleared
+     processClusterList                             :468-507   cluster entries added (empty) / deleted
+     processConsumerList                            :509-539   group records added (blank) / kept / deleted
      notifyModule                                   :541-575
        close branch :552-557, threshold :559-562, send-once :564-567, send-interval (strict >) :569-574
 
@@ -16,6 +19,15 @@
    Go iterates nc.modules in map order: each module only reads and writes its own LastNotify slot,
    so the order only permutes the calls of one response (NotifierProofs.notify_all_perm); the tie compares
    them as a sorted set.
+
+   A history is a list of events: evaluator responses, and the two halves of the periodic refresh
+   (sendClusterRequest -> processClusterList -> one processConsumerList per cluster; each half runs in its own goroutine
+   under the coordinator's locks, so the halves interleave with responses in any order - every order is a history).
+   consumerGroup.LastEval (when the next evaluation is requested; random initial value) plays no part in what a
+   response does and is left out.  A response for a cluster that has no entry in nc.clusters makes the real
+   checkAndSendResponseToModules dereference a nil *clusterGroups (panic); the model drops it like a response for a
+   group without record - sendEvaluatorRequests only asks for evaluations of recorded groups of known clusters, and
+   storage's cluster list is the static configuration (see design_notes/C13.md).
 
    [fixed = false] is the behaviour of the tree before the `fix:` commit for finding F3 (LastNotify
    survives from one incident into the next unless a close notification was actually sent); it is kept only for
@@ -55,14 +67,21 @@ Record ncall := mkNcall {
 
 (* ---- state ---- *)
 Record gstate := mkG { g_id : option Z; g_start : option Z; g_last : Z -> option Z }.
+(* &consumerGroup{LastNotify: make(map[string]time.Time)} - the blank record processConsumerList creates *)
 Definition g_init : gstate := mkG None None (fun _ => None).
 
 Definition nkey := (Z * Z)%type.     (* cluster, group *)
 Definition nkey_eqb (a b : nkey) : bool := (fst a =? fst b) && (snd a =? snd b).
 Definition resp_key (r : nresp) : nkey := (nr_cluster r, nr_group r).
 
-Record cstate := mkC { c_groups : nkey -> gstate; c_next : Z }.
-Definition c_init : cstate := mkC (fun _ => g_init) 1.
+Record cstate := mkC {
+  c_groups : nkey -> gstate;   (* nc.clusters[cluster].Groups[group]; meaningful only where [c_reg] holds *)
+  c_next : Z;                  (* number of the next event id *)
+  c_known : Z -> bool;         (* nc.clusters has an entry for the cluster *)
+  c_reg : nkey -> bool         (* nc.clusters[cluster].Groups has a record for the group *)
+}.
+(* after Configure: nc.clusters = make(map) *)
+Definition c_init : cstate := mkC (fun _ => g_init) 1 (fun _ => false) (fun _ => false).
 
 Definition is_some {A : Type} (o : option A) : bool := match o with Some _ => true | None => false end.
 
@@ -122,25 +141,67 @@ Definition group_step (fixed : bool) (mods : list nmod) (g : gstate) (next now :
   let g3 := if nr_status r =? 1 then mkG None None (g_last (fst gc)) else fst gc in
   (g3, snd gc, next1).
 
+(* a response that reaches the modules: not NOTFOUND (responseLoop) and the group has a record *)
+Definition live_resp (st : cstate) (r : nresp) : bool :=
+  negb (nr_status r =? 0) && c_reg st (resp_key r).
+
 (* ---- responseLoop body: one evaluator response at clock [now] ---- *)
 Definition on_response_gen (fixed : bool) (mods : list nmod) (st : cstate) (now : Z) (r : nresp)
   : cstate * list ncall :=
-  if nr_status r =? 0 then (st, [])
-  else
+  if live_resp st r then
     let k := resp_key r in
     let res := group_step fixed mods (c_groups st k) (c_next st) now r in
-    (mkC (fun k' => if nkey_eqb k' k then fst (fst res) else c_groups st k') (snd res), snd (fst res)).
+    (mkC (fun k' => if nkey_eqb k' k then fst (fst res) else c_groups st k') (snd res) (c_known st) (c_reg st),
+     snd (fst res))
+  else (st, []).
 
 Definition on_response := on_response_gen true.
 
-(* ---- histories: (clock, response) ---- *)
-Definition nhist := list (Z * nresp).
+(* ---- the refresh ---- *)
+Definition memz (x : Z) (l : list Z) : bool := existsb (Z.eqb x) l.
+
+(* processConsumerList(cluster, reply = groups): nothing for a cluster without entry; otherwise every listed group
+   without record gets a blank one, every listed group with a record keeps it untouched, every other record of the
+   cluster is deleted.  (Deleted = [c_reg] false; the slot is reset to the blank record a re-listing would create.) *)
+Definition on_refresh (st : cstate) (c : Z) (gs : list Z) : cstate :=
+  if c_known st c then
+    mkC (fun k => if fst k =? c
+                  then (if memz (snd k) gs && c_reg st k then c_groups st k else g_init)
+                  else c_groups st k)
+        (c_next st) (c_known st)
+        (fun k => if fst k =? c then memz (snd k) gs else c_reg st k)
+  else st.
+
+(* processClusterList(reply = clusters), the update of nc.clusters: a listed cluster without entry gets an empty
+   one, a listed cluster with an entry keeps it, every other entry is deleted together with its group records. *)
+Definition on_clusters (st : cstate) (cs : list Z) : cstate :=
+  mkC (fun k => if memz (fst k) cs && c_known st (fst k) && c_reg st k then c_groups st k else g_init)
+      (c_next st)
+      (fun c => memz c cs)
+      (fun k => memz (fst k) cs && c_known st (fst k) && c_reg st k).
+
+(* ---- histories ---- *)
+Inductive nevent :=
+| HResponse (now : Z) (r : nresp)                      (* an evaluator response handled at clock [now] *)
+| HRefresh (now : Z) (cluster : Z) (groups : list Z)   (* processConsumerList for [cluster] receives [groups] *)
+| HClusters (now : Z) (clusters : list Z).             (* processClusterList receives [clusters] *)
+
+Definition nhist := list nevent.
+
+Definition on_event_gen (fixed : bool) (mods : list nmod) (st : cstate) (e : nevent) : cstate * list ncall :=
+  match e with
+  | HResponse now r => on_response_gen fixed mods st now r
+  | HRefresh _ c gs => (on_refresh st c gs, [])
+  | HClusters _ cs => (on_clusters st cs, [])
+  end.
+
+Definition on_event := on_event_gen true.
 
 Fixpoint run_gen (fixed : bool) (mods : list nmod) (st : cstate) (h : nhist) : list (list ncall) * cstate :=
   match h with
   | [] => ([], st)
-  | (now, r) :: h' =>
-      let sc := on_response_gen fixed mods st now r in
+  | e :: h' =>
+      let sc := on_event_gen fixed mods st e in
       let rest := run_gen fixed mods (fst sc) h' in
       (snd sc :: fst rest, snd rest)
   end.
@@ -152,7 +213,7 @@ Definition run := run_gen true.
 Fixpoint state_after (mods : list nmod) (st : cstate) (h : nhist) : cstate :=
   match h with
   | [] => st
-  | (now, r) :: h' => state_after mods (fst (on_response mods st now r)) h'
+  | e :: h' => state_after mods (fst (on_event mods st e)) h'
   end.
 
 Definition state_at (mods : list nmod) (h : nhist) (j : nat) : cstate :=
@@ -160,7 +221,7 @@ Definition state_at (mods : list nmod) (h : nhist) (j : nat) : cstate :=
 
 Definition calls_at (mods : list nmod) (h : nhist) (j : nat) : list ncall :=
   match nth_error h j with
-  | Some (now, r) => snd (on_response mods (state_at mods h j) now r)
+  | Some e => snd (on_event mods (state_at mods h j) e)
   | None => []
   end.
 
@@ -168,3 +229,5 @@ Definition calls_at (mods : list nmod) (h : nhist) (j : nat) : list ncall :=
 Definition mk_mod (name thr iv : Z) (once close accg : bool) (lists : Z -> rx4) : nmod :=
   mkNmod name thr iv once close lists accg.
 Definition group_of (st : cstate) (cluster group : Z) : gstate := c_groups st (cluster, group).
+Definition has_record (st : cstate) (cluster group : Z) : bool := c_reg st (cluster, group).
+Definition ev_response (now cluster group status : Z) : nevent := HResponse now (mkNresp cluster group status).
